@@ -115,6 +115,11 @@ class History:
             size = len(text.encode())
             t = self.world.now_s
             old = self.mtimes.get(rel)
+            if self.stall_ok and old is not None and 2 <= old[1] - size <= 400 and rel.endswith((".py", ".pyi")):
+                # stall family: make the save keep the file size (padding comment), so that together
+                # with an unchanged mtime second the edit is invisible to stat-based change detection
+                text = text + "#" + "x" * (old[1] - size - 2) + "\n"
+                size = len(text.encode())
             if old is not None and not self.stall_ok and old == (int(t), size):
                 t = float(int(t) + 1)  # an editor save that lands in the same second: next tick
             self.world.write(rel, text, mtime=t)
